@@ -21,14 +21,14 @@ def run(ck):
     c["units_total"] = c.get("handlers_registered", 0) + c.get("jobs_posted", 0)
     ck.inconclusive += c.get("loop_scenarios_inconclusive", 0) + c.get("pool_scenarios_inconclusive", 0) + c.get("overtake_inconclusive", 0) + c.get("near_deadline_inconclusive", 0)
     ck.assumptions += [
-        "caller contract respected by the workload: at most one pending readable and one pending writeable wait per descriptor; deadline_timer/stream_socket objects are used by one thread at a time (only io_service members are documented thread-safe); "
+        "caller contract respected by the workload: at most one pending readable and one pending writeable wait per descriptor in the multi-threaded scenarios (a separate single-threaded scenario arms 2..3 waits of one kind on a descriptor: each handler must still run exactly once); deadline_timer/stream_socket objects are used by one thread at a time (only io_service members are documented thread-safe); "
         "a raw timer id is cancelled by its owner only",
         "lost handlers are decided by ordering: the dispatch queue is FIFO, cancellations enqueue before the sentinels, the sentinel timer is later than every must-fire deadline; only the wait for the sentinels is under a wall-clock watchdog",
         "stop() racing with post() is not asserted beyond at-most-once (the property conditions exactly-once on the loop continuing)",
     ]
     ck.finish("exploration",
               "for each reactor {epoll, poll, select}: one loop thread and 1..8 producer threads posting handlers, arming timers (past, equal, near, far), cancelling them (far: always, near: racing with expiry), arming readable/writeable waits on "
-              "socket pairs, cancelling them before/after readiness, closing devices with pending waits; cppcms::thread_pool with 1..6 workers and posters, cancelling and throwing jobs; seeded yield points inside the loop and the "
+              "socket pairs, cancelling them before/after readiness, closing devices with pending waits; inside one handler: cancel + close of a descriptor whose number a new socket takes at once and arms (the cancelled wait must hear the cancellation, not the new socket's event); cppcms::thread_pool with 1..6 workers and posters, cancelling and throwing jobs; seeded yield points inside the loop and the "
               "worker; every handler carries a unique id and the offline checker requires exactly one run, on the loop thread, with success/canceled as allowed and never before the deadline; ThreadSanitizer and ASan builds. "
               "non-trivial = distinct (reactor, producers, registered handlers) scenario shapes",
               "units_total", "shapes", min_evals=20000,
